@@ -312,8 +312,13 @@ def date_case(draw):
                    st.sampled_from([0, 1, 12, 13, 28, 29, 30, 31, 32, 1900,
                                     2000, 2100, -1]))
     return {"a": draw(ii), "b": draw(ii), "c": draw(ii),
-            "d1": [draw(ii), draw(ii), draw(ii)],
-            "d2": [draw(ii), draw(ii), draw(ii)],
+            "d1": draw(st.one_of(
+                st.lists(ii, min_size=3, max_size=3),
+                st.lists(ii, min_size=0, max_size=5))),
+            "d2": draw(st.one_of(
+                st.lists(ii, min_size=3, max_size=3),
+                st.lists(ii, min_size=0, max_size=5))),
+            "dlen": draw(st.sampled_from([3, 3, 3, 0, 1, 2, 4])),
             "day": draw(st.one_of(fval, st.floats(1e7, 3e7),
                                   st.sampled_from([20000229., 19001301.,
                                                    1e9, 2.2e9, -1.]))),
@@ -343,7 +348,7 @@ def _(c):
     elif f == "comparedates":
         c_hydrodiy_data.comparedates(A(c["d1"], i32), A(c["d2"], i32))
     elif f == "getdate":
-        c_hydrodiy_data.getdate(c["day"], np.zeros(3, dtype=i32))
+        c_hydrodiy_data.getdate(c["day"], np.zeros(c["dlen"], dtype=i32))
     else:
         dutils.dayofyear(pd.date_range("2000-02-27", periods=5))
 
